@@ -6,6 +6,36 @@ props = [json.loads(l) for l in open(os.path.join(here, 'properties.jsonl'))]
 
 MC = "model_checking"
 checks = {
+ "C05": dict(
+    technique="exhaustive enumeration of every reference (node x location x spelling x escaping x root representation x entry point, plus dangling pointers/documents/root locations) against a reference-model resolver",
+    text="Every node of a document named by hostile member names and held at six locations is addressed through every spelling of the URI part, both fragment escapings, every Resolve* entry point and every way of supplying the root (typed pointer, typed value, generic JSON, location only); the result must equal the node designated by the reference model's RFC 3986 + RFC 6901 resolution, nested $refs untouched, root unchanged; every dangling pointer, document or root location must yield an error and a nil result, also with ContinueOnError set.",
+    note="Expectation = designated JSON decoded into the requested Go type and re-encoded (codec losses are C01's). Package-level state is fingerprinted after every call.",
+    ref="3 C05"),
+ "C09": dict(
+    technique="graph alphabet exploration with SkipSchemas (map orders within 1 deviation) + location-preserving bisimulation + two-stage differential against direct full expansion",
+    text="Every graph of the alphabet that holds parameters, responses and path items (inline, imported, chains) is expanded with SkipSchemas; no non-schema $ref may remain, definitions must be JSON-identical, every schema $ref must be kept and designate the same location from the root (fragment-only into the root), and fully expanding the skip output must equal the direct full expansion (bytes when acyclic, bisimilar and cut-point-valid otherwise).",
+    note="Well-formed inputs; C03's known cut-point spelling finding is not re-judged here.",
+    ref="3 C09"),
+ "C10": dict(
+    technique="exhaustive enumeration of (root graph x referable element x entry point x root representation x cache policy) and two-call histories reusing a cache with another root; reference-model oracles",
+    text="Every definition, parameter and response of every generated root is expanded through every single-element entry point and every way of supplying root and cache; the result (put back at its place) must be bisimilar to the element in the context of that root, its remaining $refs must resolve against that root onto input cycles, and the root document and the option structure must be unchanged.",
+    note="*WithRoot entry points place the root at <cwd>/.root, so references leaving the root are generated in absolute form.",
+    ref="3 C10"),
+ "C11": dict(
+    technique="breadth-first explicit-state search over rewrites of the root location (depth-bounded), real working-directory changes, differential oracle against the canonical spelling",
+    text="All spellings within k rewrites of a canonical file/http/https location (./, x/../, doubled slash, path / file:/ / file:/// forms, scheme case, fragment, query, relative to four working directories, empty base in the root's directory) are used with five entry points on five multi-document graphs; error, output and the set of requested URLs must equal those of the canonical spelling, every requested URL must be absolute, clean and fragment-free, and normalisation must be idempotent. The working-directory history is owned (a relative location is always normalised before the directory changes).",
+    note="Runs with a fixed (sorted) map order so outputs of cyclic graphs are comparable.",
+    ref="3 C11"),
+ "C12": dict(
+    technique="exhaustive enumeration of references over a segment alphabet x bases, oracle = RFC 3986 resolution by net/url with section 6.2.2 normalisation",
+    text="Every reference of up to k directory segments from {a, b.c, ., .., a%20b, non-ASCII, %41, a%2Fb} plus a file segment, relative / root-relative / absolute, with or without fragment, is resolved against file/http/https bases of depth 0..3; the first URL handed to the loader must equal the RFC 3986 resolution without the fragment.",
+    note="Known finding: %2F inside a segment is decoded to a path separator.",
+    ref="3 C12"),
+ "C18": dict(
+    technique="enumeration of cache policies and call histories (every subset of documents pre-loaded x cache kind x two/three-call histories, refused documents, unclean URLs) over the graph alphabet; reference-model and differential (no-cache) oracles",
+    text="Every cache-taking entry point is driven with a caller-implemented and with the library's cache, every subset of external documents pre-loaded, caches reused across elements of the same root and across failing loads; results must stay bisimilar to the element (ids: equal to the no-cache result), no URL may be requested twice in one call, nothing pre-loaded may be requested, cached documents must be unchanged, and a refused document must be reported on every call.",
+    note="For schemas with ids there is no reference model: the same call without a cache is the oracle.",
+    ref="3 C18"),
  "C02": dict(
     technique="bounded-exhaustive enumeration of multi-document reference graphs (topology x placement x spelling x keyword position x entry element x chains) executed by the real ExpandSpec under every map iteration order within a deviation bound; bisimulation against a reference model of $ref semantics",
     text="Every reference graph of the bounded alphabet (all digraphs on <= 2 nodes against every dimension, 3 nodes against placements; thorough: 3 nodes against every dimension) is expanded by the real code under all map orders within 1 deviation, and every root element of the output must be bisimilar (coinductive comparison of the possibly infinite unfoldings) to the same element of the input in a universe where every wrong-document resolution lands on a decoy. This decides meaning preservation for the whole bounded space, not for fixtures.",
